@@ -56,6 +56,27 @@ class Obligation(object):
         }
 
 
+class _View(object):
+    """see Ctx.view"""
+
+    def __init__(self, ctx, keep, rule, prefix):
+        self._ctx = ctx
+        self._keep = keep
+        self._rule = rule
+        self._prefix = prefix
+
+    def ob(self, rule, where, construct, ok, msg="", line=None):
+        if not self._keep(where):
+            return bool(ok)
+        return self._ctx.ob(self._rule or rule, where, construct, ok, msg, line)
+
+    def count(self, key, n=1):
+        self._ctx.count(self._prefix + key, n)
+
+    def __getattr__(self, name):
+        return getattr(self._ctx, name)
+
+
 class Ctx(object):
     """Per-run context handed to a rule module"""
 
@@ -126,6 +147,13 @@ class Ctx(object):
         except AnalysisError as e:
             self.errors.append("{}: {}".format(getattr(fn, "__name__", "section"), e))
             return None
+
+    def view(self, keep, rule=None, prefix=""):
+        """
+        a proxy handed to another property's sub-rule: only obligations whose `where` satisfies `keep`
+        are recorded, under rule name `rule`; counters are prefixed. Everything else is this context.
+        """
+        return _View(self, keep, rule, prefix)
 
     def need(self, cond, msg):
         """shape requirement of a recogniser"""
